@@ -71,7 +71,10 @@ def _c19(tier, replay, seed, work, t0):
         keys = [[97], [65], [98], [97, 98], [102, 105, 108, 101]]
         for _ in range(60 if quick else 1500):
             n = rng.choice([5, 8, 20, 60])
-            fields = [[rng.choice(keys), list(f"v{i}".encode())] for i in range(n)]
+            # (values: distinct per position; some end in CR, contain CR / TAB or are empty - all ordinary value bytes)
+            fields = [[rng.choice(keys), list(f"v{i}".encode()) + rng.choice([[], [], [], [13], [13, 13], [9], [13, 120]])] for i in range(n)]
+            if rng.random() < 0.2:
+                fields[rng.randrange(n)][1] = rng.choice([[], [13]])
             ops = []
             for _ in range(rng.randint(5, 40)):
                 o = rng.choice(["find", "get", "get", "get", "take_binary", "fields_len", "is_empty", "has_binary", "binary", "iter"])
